@@ -118,7 +118,7 @@ def _impl_with_creds(sc):
     """scenario.impl_run deep-copies credentials; a RequestContext / policy-values mapping is passed as is."""
     conf = scenario._conf(sc.get('enforce_scope', True), None)
     e = policy.Enforcer(conf, use_conf=False)
-    e.set_rules(policy.Rules.from_dict(sc['rules'], e.default_rule), use_conf=False)
+    impl.install_rules(e, sc['rules'])
     for name, st in sc.get('registered', []):
         e.register_default(policy.RuleDefault(name, '!', scope_types=st))
     outs = []
